@@ -6,39 +6,49 @@ import (
 	"lachk/core"
 )
 
-// c27NoLeakOnError: a failed open must not count as a reference: no path increments the counter and
-// then returns without a store. Paths are searched per outcome of the cache lookup (see
-// c27HitScenarios), so a count made on the hit branch is not combined with the failure exit of the
-// miss branch.
+// c27NoLeakOnError: a failed open must not count as a reference: no path updates the counter and
+// then returns without a store. The update may be written in openDB or in a module function it calls
+// (see c27Effect); paths are searched per scenario (outcome of the cache lookup, made in openDB or
+// reported by the helper that makes it), so a count made on the hit branch is not combined with the
+// failure exit of the miss branch.
 func c27NoLeakOnError(c *core.Ctx) {
 	c.Clause("C27.open.error", func() {
 		open := c.Fn("kvdb/cachedproducer.openDB")
-		scenarios := c27HitScenarios(open, cpState+".opened")
-		n := 0
-		for _, a := range assignments(open) {
+		refc := cpState + ".refCounter"
+		writes := c27NewEffect(cpState+".opened", func(f *core.FuncInfo, a assignment) (ast.Expr, bool) {
 			ix, ok := ast.Unparen(a.LHS).(*ast.IndexExpr)
-			if !ok || fieldNameOf(open, ix.X) != cpState+".refCounter" {
-				continue
+			if !ok || fieldNameOf(f, ix.X) != refc {
+				return nil, false
 			}
-			n++
+			return ix.Index, true
+		})
+		sites, bad := writes.sites(open, 2)
+		if bad != "" {
+			c.Undecided("a failed open is not counted", "T7 Pairing", open.Pos(), "cannot tell on which paths openDB updates the reference counter: "+bad)
+		}
+		noStore := func(pt core.Point) bool {
+			r, isRet := pt.Node().(*ast.ReturnStmt)
+			return isRet && len(r.Results) == 2 && core.IsNil(open.Info(), r.Results[0])
+		}
+		scenarios := writes.scenarios(open, sites)
+		for _, s := range sites {
 			var path []core.Point
 			found := false
-			for _, infeasible := range scenarios {
+			for _, sc := range scenarios {
+				if s.cond != nil && sc.val[s.cond] != c26True {
+					continue // the update is not made in this scenario
+				}
 				// the update must itself be reachable in the scenario
-				if _, reach := (core.PathQuery{F: open, From: open.Entry(), Target: core.PointSet(a.Pt), AvoidEdge: infeasible}).Find(); !reach && a.Pt != open.Entry() {
+				if _, reach := (core.PathQuery{F: open, From: open.Entry(), Target: core.PointSet(s.pt), AvoidEdge: sc.infeasible}).Find(); !reach {
 					continue
 				}
-				p, f := core.PathQuery{F: open, From: a.Pt, FromAfter: true, AvoidEdge: infeasible, Target: func(pt core.Point) bool {
-					r, isRet := pt.Node().(*ast.ReturnStmt)
-					return isRet && len(r.Results) == 2 && core.IsNil(open.Info(), r.Results[0])
-				}}.Find()
-				if f {
+				if p, f := (core.PathQuery{F: open, From: s.pt, FromAfter: true, AvoidEdge: sc.infeasible, Target: noStore}).Find(); f {
 					path, found = p, true
 				}
 			}
-			c.Check(!found, "a failed open is not counted", "T7 Pairing", a.Stmt.Pos(), "no path from this counter update reaches a return without a store",
+			c.Check(!found, "a failed open is not counted", "T7 Pairing", s.pos, "no path from this counter update reaches a return without a store",
 				"the reference counter is increased on a path that then fails to open the database: the leaked reference keeps the underlying database open after the last Close and hides one surplus Close ("+open.DescribePath(path)+")")
 		}
-		c.ExpectAtLeast("refCounter updates in openDB", n, 1)
+		c.ExpectAtLeast("refCounter updates in openDB", len(sites), 1)
 	})
 }
